@@ -9,6 +9,7 @@ TABLE = [
  ("atomic",  "AtomCalls",   "AtomMenu",   "Genesis0",     '{"eth"}',        "Mods0",         (2, 3, 1), (2, 4, 2)),
  ("reply",   "ReplyCalls",  "ReplyMenu",  "Genesis0",     '{"eth"}',        "Mods0",         (1, 4, 1), (1, 6, 2)),
  ("events",  "EventsCalls", "EventsMenu", "Genesis0",     '{"eth"}',        "Mods0",         (1, 3, 1), (1, 5, 2)),
+ ("eventsE", "EventsECalls","EventsMenu", "GenesisRoute", '{"eth"}',        "Mods0",         (1, 3, 1), (1, 4, 2)),
  ("funds",   "FundsCalls",  "FundsMenu",  "GenesisFunds", '{"eth", "btc"}', "Mods0",         (2, 3, 1), (2, 4, 2)),
  ("private", "PrivCalls",   "PrivMenu",   "Genesis0",     '{"eth"}',        "Mods0",         (2, 3, 1), (2, 4, 2)),
  ("percode", "PcCalls",     "PcMenu",     "GenesisPC",    '{"eth"}',        "Mods0",         (2, 3, 1), (3, 3, 2)),
